@@ -349,7 +349,10 @@ func runConc(c driver.Case) driver.Result {
 			}
 		}
 		sub := obs.Subscribe(rec.Raw[int](r))
-		m.Wait()
+		if st, _, _ := quiesce.Call(m.Wait, 8*time.Second); st != quiesce.Returned {
+			// a producer is blocked inside the library for good: that is a hang, judged by C03/C06/C14, not a grammar verdict
+			return driver.Result{Verdict: driver.Inconclusive, Key: "producer-blocked-in-library", Msg: "a producer goroutine never returned from the library (hang: see C03/C14 findings) — chain " + c.Get("chain"), Dirty: true}
+		}
 		quiesce.Settle(2 * time.Second)
 		emissions = m.Emissions()
 		defer func() { defer func() { recover() }(); sub.Unsubscribe() }()
